@@ -113,6 +113,11 @@ def handle : List String → String
     match maxData.toNat? with
     | some l => runFull asl input ctx oracle fuel (some l)
     | none => "unsupported"
+  -- the length the size checks measure: `(render j).length`, to be compared with Python's `len(json.dumps(j))`
+  | ["renderlen", j] =>
+    match rd j with
+    | some v => "ok\t" ++ toString (render v).length
+    | none => "unsupported"
   | ["runlite", asl, input, ctx, oracle, fuel] =>
     match rd asl, rd input, rd ctx, rd oracle, fuel.toNat? with
     | some a, some i, some c, some o, some f =>
